@@ -125,12 +125,13 @@ func renderHTML(d *metaDoc, label string) (string, int) {
 				inner = `"` + label + `"`
 			}
 		}
-		content := "text/html; charset=" + inner
+		cs := recase("charset", d.TCase) // the parameter name inside the content value is matched without regard to case too
+		content := "text/html; " + cs + "=" + inner
 		switch d.Spacing {
 		case "spaces":
-			content = "text/html;  charset = " + inner + " "
+			content = "text/html;  " + cs + " = " + inner + " "
 		case "newlines":
-			content = "text/html;charset=" + inner + ";x=y"
+			content = "text/html;" + cs + "=" + inner + ";x=y"
 		}
 		e := attr("http-equiv", recase("Content-Type", d.TCase), d.Quote)
 		c := attr("content", content, d.Quote)
@@ -190,7 +191,9 @@ var hostileBytes = map[string]string{
 	"tok": "a", "UP": "Q", "dq": `"`, "sq": "'", "bs": `\`, "semi": ";", "eq": "=", "comma": ",", "sp": " ", "tab": "\t",
 	"cr": "\r", "lf": "\n", "esc": "\x1b", "ff": "\x0c", "del": "\x7f", "pct": "%", "star": "*", "u8": "\xc3\xa9",
 	"cont": "\xa9", "xff": "\xff", "paren": "(", "gt": ">", "slash": "/", "colon": ":", "lt": "<", "at": "@", "qm": "?", "lbr": "[", "rbr": "]",
-	"inj": ";charset=latin1", // a second parameter smuggled in through the label
+	"inj":     ";charset=latin1",              // a second parameter smuggled in through the label
+	"longu8":  strings.Repeat("\xc3\xa9", 90), // 180 bytes, three times as long once RFC 2231-encoded
+	"longtok": strings.Repeat("a", 260),
 }
 
 func renderHostile(d *metaDoc) (string, int) {
@@ -456,6 +459,37 @@ func metadocsMain(args []string) int {
 	if err != nil || n == 0 {
 		fmt.Fprintln(os.Stderr, "no documents", err)
 		return 2
+	}
+	if hostile > 0 {
+		// long labels: every length 100..140 and 245..265 of one repeated character (escape pairs and the
+		// RFC 2231 form make the formatted string two to three times as long), three declaration syntaxes
+		mimetype.SetLimit(0)
+		for _, c := range []string{`\`, `"`, "a", "\xc3\xa9", ";", " "} {
+			for L := 100; L <= 265; L++ {
+				if L > 140 && L < 245 {
+					continue
+				}
+				label := strings.Repeat(c, L)
+				docs := []string{
+					`<!DOCTYPE html><html><head><meta charset='` + label + `'><title>t</title></head></html>`,
+					`<!DOCTYPE html><html><head><meta http-equiv="Content-Type" content='text/html; charset=` + label + `'></head></html>`,
+					`<?xml version="1.0" encoding='` + label + `'?><a/>`,
+				}
+				if c == `"` {
+					docs = docs[:1]
+				}
+				for _, doc := range docs {
+					raw := exact([]byte(doc))
+					m := mimetype.Detect(raw)
+					n++
+					hostile++
+					c02Check(rep, m, nil, raw, 0, reg)
+					if charsetOf(m) != "" {
+						labelled++
+					}
+				}
+			}
+		}
 	}
 	mimetype.SetLimit(3072)
 	rep.Evaluations = n
